@@ -1,4 +1,6 @@
 import RtenVerif.Lemmas.SymRange
+import RtenVerif.Lemmas.SymWFSimp
+import RtenVerif.Lemmas.SymMachine
 
 /-!
 # C11 — Symbolic expression simplification and bounds are sound
@@ -40,6 +42,25 @@ theorem c11_simplify_preserves_eval_partial {A : Arith} (hA : Exact A) (σ : Env
     (e e' : SymExpr) (v : Int) (hs : simplify A e = some e')
     (hg : Guards A σ (canonicalize e)) (h : ev σ e = .ok v) : ev σ e' = .ok v :=
   simpC_sound hA σ (canonicalize e) e' v hg hs (canonicalize_sound σ e v h)
+
+/-- **C11.T1 (headline, hypotheses on the ORIGINAL expression; partial).**  For every
+expression `e`, every assignment `σ` and every exact arithmetic: if every `DivCeil` divisor
+of `e` evaluates to a positive number (`posDivisors`) and every `Broadcast` node of `e` has
+operands `≥ 1` that are equal or one of them `1` (`bcastDom`), then `simplify` preserves the
+value.  The two hypotheses are exactly the two open findings; nothing about the canonicalised
+tree or about intermediate results of the simplifier is assumed. -/
+theorem c11_simplify_preserves_eval_orig_partial {A : Arith} (hA : Exact A) (σ : Env)
+    (e e' : SymExpr) (v : Int) (hs : simplify A e = some e')
+    (hp : posDivisors σ e) (hb : bcastDom σ e) (h : ev σ e = .ok v) : ev σ e' = .ok v :=
+  c11_simplify_preserves_eval_partial hA σ e e' v hs (guards_canonicalize hA σ e v hp hb h) h
+
+/-- The side conditions on the original expression imply the internal guards, and both are
+invariants of `canonicalize` and `simplify_canonical` (audit item). -/
+theorem c11_guards_of_original {A : Arith} (hA : Exact A) (σ : Env) (e : SymExpr) (v : Int)
+    (hp : posDivisors σ e) (hb : bcastDom σ e) (h : ev σ e = .ok v) :
+    Guards A σ (canonicalize e) ∧ posDivisors σ (canonicalize e) ∧ bcastDom σ (canonicalize e) :=
+  ⟨guards_canonicalize hA σ e v hp hb h,
+    (wf_iff σ _).mp (canonF_wf σ _ e v ((wf_iff σ e).mpr ⟨hp, hb⟩) h)⟩
 
 /-- `simplify_canonical` alone (any input, canonical or not), same side conditions. -/
 theorem c11_simplify_canonical_preserves_eval_partial {A : Arith} (hA : Exact A) (σ : Env)
@@ -115,6 +136,81 @@ example :
       ev exσ1 exE1 = .ok 7 ∧ Guards Arith.checked exσ1 (canonicalize exE1) :=
   ⟨by decide +kernel, by decide +kernel,
     guardsB_sound Arith.checked exσ1 (canonicalize exE1) (by decide +kernel)⟩
+
+/-- Non-vacuity of the headline: the same expression meets the hypotheses on the original
+tree (computed with the decidable form `wfB`). -/
+example : posDivisors exσ1 exE1 ∧ bcastDom exσ1 exE1 ∧ ev exσ1 exE1 = .ok 7 :=
+  ⟨((wf_iff exσ1 exE1).mp (wfB_sound exσ1 exE1 (by decide +kernel))).1,
+   ((wf_iff exσ1 exE1).mp (wfB_sound exσ1 exE1 (by decide +kernel))).2, by decide +kernel⟩
+
+def exσ4 : Env := fun n => if n = 0 then some 3 else if n = 1 then some 1 else none
+/-- … and one with a `Broadcast` chain: `broadcast(broadcast(s0, s1), s0) + 0` at
+`s0 = 3, s1 = 1`. -/
+def exE4 : SymExpr :=
+  .bin .add (.bin .broadcast (.bin .broadcast (.var 0 true) (.var 1 true)) (.var 0 true)) (.value 0)
+example : posDivisors exσ4 exE4 ∧ bcastDom exσ4 exE4 ∧ ev exσ4 exE4 = .ok 3 ∧
+    simplify Arith.checked exE4 = some (.bin .broadcast (.var 0 true) (.var 1 true)) :=
+  ⟨((wf_iff exσ4 exE4).mp (wfB_sound exσ4 exE4 (by decide +kernel))).1,
+   ((wf_iff exσ4 exE4).mp (wfB_sound exσ4 exE4 (by decide +kernel))).2,
+   by decide +kernel, by decide +kernel⟩
+
+/-! ## T1 for the machine evaluators -/
+
+/-- **C11.T1 (machine arithmetic).**  `SymExpr::eval` uses plain `+ - * /`: an overflow
+panics in debug / `overflow-checks` builds (`evc`, `Arith.checked`) and wraps in release
+builds (`Arith.wrap`).  Hypothesis checkable on the original expression: its overflow-checked
+evaluation succeeds (`evc σ e = ok v`, i.e. no intermediate result of evaluating `e` leaves
+`i32`).  Then, for the simplified expression `e'`:
+* the checked evaluator returns `v` or panics on an overflow — never another value and never
+  `DivisionByZero` / `MissingSymbol`;
+* whenever it does not overflow, both machine evaluators return `v`;
+* the release evaluator returns `v` on the original.
+That an overflow can appear in `e'` although `e` has none is a fact about the code
+(`c11_reassociation_moves_overflow`); hence no condition on `e` alone that is as weak as
+"`e` evaluates without overflow" can promise `evc σ e' = ok v`. -/
+theorem c11_simplify_machine_eval_partial {A : Arith} (hA : Exact A) (σ : Env)
+    (e e' : SymExpr) (v : Int) (hs : simplify A e = some e')
+    (hp : posDivisors σ e) (hb : bcastDom σ e) (h : evc σ e = .ok v) :
+    (evc σ e' = .ok v ∨ evc σ e' = .error .panic) ∧
+    (∀ v', evc σ e' = .ok v' → v' = v ∧ eval Arith.wrap σ e' = .ok v) ∧
+    eval Arith.wrap σ e = .ok v := by
+  have hi : ev σ e' = .ok v :=
+    c11_simplify_preserves_eval_orig_partial hA σ e e' v hs hp hb (evc_ev σ e v h)
+  refine ⟨evc_of_ev σ e' v hi, ?_, evw_of_evc σ e v h⟩
+  intro v' hv'
+  have := evc_ev σ e' v' hv'
+  rw [hi] at this
+  simp at this; subst this
+  exact ⟨rfl, evw_of_evc σ e' _ hv'⟩
+
+def envO1 : Env := fun n =>
+  if n = 3 then some 2147483647 else if n = 4 then some 1 else if n = 5 then some (-5) else none
+def envO2 : Env := fun n =>
+  if n = 0 then some 5 else if n = 1 then some 65536 else if n = 2 then some 65536 else none
+
+/-- **Re-association moves an overflow** (counted by the harness as `simp_eval_moves_overflow`,
+never failed).  Both originals evaluate without overflow and meet every hypothesis above.
+(1) `s3 + (s4 + s5)` at `(MAX, 1, -5)` is `MAX - 4`; `simplify` returns `(s3 + s4) + s5`, which
+overflows: the debug evaluator panics, the release evaluator still returns `MAX - 4`.
+(2) `s0 / s1 / s2` at `(5, 65536, 65536)` is `0`; `simplify` returns `s0 / (s1 * s2)`: the
+debug evaluator panics and the release evaluator reports `DivisionByZero`. -/
+theorem c11_reassociation_moves_overflow :
+    (evc envO1 (.bin .add (.var 3 false) (.bin .add (.var 4 false) (.var 5 false)))
+        = .ok 2147483643 ∧
+      simplify Arith.checked (.bin .add (.var 3 false) (.bin .add (.var 4 false) (.var 5 false)))
+        = some (.bin .add (.bin .add (.var 3 false) (.var 4 false)) (.var 5 false)) ∧
+      evc envO1 (.bin .add (.bin .add (.var 3 false) (.var 4 false)) (.var 5 false))
+        = .error .panic ∧
+      eval Arith.wrap envO1 (.bin .add (.bin .add (.var 3 false) (.var 4 false)) (.var 5 false))
+        = .ok 2147483643) ∧
+    (evc envO2 (.bin .div (.bin .div (.var 0 true) (.var 1 true)) (.var 2 true)) = .ok 0 ∧
+      simplify Arith.checked (.bin .div (.bin .div (.var 0 true) (.var 1 true)) (.var 2 true))
+        = some (.bin .div (.var 0 true) (.bin .mul (.var 1 true) (.var 2 true))) ∧
+      evc envO2 (.bin .div (.var 0 true) (.bin .mul (.var 1 true) (.var 2 true)))
+        = .error .panic ∧
+      eval Arith.wrap envO2 (.bin .div (.var 0 true) (.bin .mul (.var 1 true) (.var 2 true)))
+        = .error .divisionByZero) := by
+  decide +kernel
 
 /-! ## T2 — range -/
 
